@@ -27,14 +27,14 @@ CallEvents == {"Tick", "Deliver", "Propose", "ProposeBatch", "ProposeConf", "Rea
 ReadyEvents == {"Ready", "Advance", "AdvanceAppend"}
 ProposeEvents == {"Propose", "ProposeBatch", "ProposeConf"}
 
-i == evt.n                       \* acting node (0 for network-only events)
-Acting == i \in Nodes
+an == evt.n                       \* acting node (0 for network-only events)
+Acting == an \in Nodes
 P == pre.node                    \* acting node before the event
 PS == pre.stor
-Q == node[i]                     \* acting node after the event
-QS == stor[i]
+Q == node[an]                     \* acting node after the event
+QS == stor[an]
 IsCall == Acting /\ evt.ev \in CallEvents
-SameInc == IsCall /\ pre.up /\ up[i]          \* same incarnation before and after
+SameInc == IsCall /\ pre.up /\ up[an]          \* same incarnation before and after
 M == evt.a.m                     \* delivered message (Deliver events only)
 IsDeliver(ty) == evt.ev = "Deliver" /\ M.ty = ty
 
@@ -145,7 +145,7 @@ C02_OneLeaderPerTerm == \A a, b \in gh.leaders : a[1] = b[1] => a[2] = b[2]
 (* C03  Leader completeness and the election restriction                     *)
 
 C03_LeaderComplete ==
-    (Acting /\ up[i] /\ Q.role = "L") =>
+    (Acting /\ up[an] /\ Q.role = "L") =>
         \A k \in DOMAIN gh.CL :
             (gh.clBy[k] > 0 /\ gh.clBy[k] < Q.term /\ gh.CL[k].ty # "?") =>
                 \/ k <= SnapPoint(Q, QS)
@@ -189,8 +189,8 @@ LogMatch(a, sa, b, sb) ==
             (Retained(a, sa, k2) /\ Retained(b, sb, k2)) => LogEntry(a, sa, k2) = LogEntry(b, sb, k2)
 
 C05_LogMatching ==
-    (Acting /\ i \in gh.members) =>
-        \A j \in gh.members \ {i} : LogMatch(LNode(i), LStor(i), LNode(j), LStor(j))
+    (Acting /\ an \in gh.members) =>
+        \A j \in gh.members \ {an} : LogMatch(LNode(an), LStor(an), LNode(j), LStor(j))
 
 C05_LeaderAppendOnly ==
     (SameInc /\ P.role = "L" /\ Q.role = "L" /\ P.term = Q.term) =>
@@ -209,12 +209,12 @@ C05_CommittedImmutable ==
 C06_TermMonotone == SameInc => Q.term >= P.term
 
 C06_RestartKeepsPromises ==
-    (Acting /\ evt.ev = "Restart" /\ up[i]) =>
-        /\ Q.term >= gh.toldTerm[i]
-        /\ \A v \in gh.toldVotes[i] : v[1] = Q.term => Q.vote = v[2]
+    (Acting /\ evt.ev = "Restart" /\ up[an]) =>
+        /\ Q.term >= gh.toldTerm[an]
+        /\ \A v \in gh.toldVotes[an] : v[1] = Q.term => Q.vote = v[2]
 
 C06_VoteOncePerTerm ==
-    Acting => \A v1, v2 \in gh.toldVotes[i] : v1[1] = v2[1] => v1[2] = v2[2]
+    Acting => \A v1, v2 \in gh.toldVotes[an] : v1[1] = v2[1] => v1[2] = v2[2]
 
 LeaderMsgTypes == {"App", "HB", "Snap", "TimeoutNow", "ReadIndexResp"}
 DurCoversVote(D, t, cand) == D.hs.term > t \/ (D.hs.term = t /\ D.hs.vote = cand)
@@ -231,7 +231,7 @@ DurableCovers(j, m) ==
                        => StorEntry(D, m.idx) = LogEntry(node[j], stor[j], m.idx)
 
 C06_PersistBeforeSend ==
-    Acting => \A x \in DOMAIN evt.out : DurableCovers(i, evt.out[x])
+    Acting => \A x \in DOMAIN evt.out : DurableCovers(an, evt.out[x])
 
 -----------------------------------------------------------------------------
 (* C07  Ready contract                                                       *)
@@ -251,7 +251,7 @@ HasReadySpec(n, st) ==
     \/ HasUSnap(n)
     \/ HasNextEntsSince(n, st, n.rn.commitSince)
 
-IsRdEvent == Acting /\ evt.ev \in ReadyEvents /\ evt.rk = "ok" /\ up[i]
+IsRdEvent == Acting /\ evt.ev \in ReadyEvents /\ evt.rk = "ok" /\ up[an]
 
 C07_HandOffExact ==
     (IsRdEvent /\ Len(evt.rd.committed) > 0) =>
@@ -286,7 +286,7 @@ C07_SnapshotAlone ==
         /\ evt.rd.snap.i > 0 => evt.rd.committed = <<>>
 
 C07_HasReadyExact ==
-    (Acting /\ up[i] /\ evt.ev \in CallEvents \cup {"Restart", "Init"}) =>
+    (Acting /\ up[an] /\ evt.ev \in CallEvents \cup {"Restart", "Init"}) =>
         (evt.hr <=> HasReadySpec(Q, QS))
 
 C07_ReadyNonEmpty ==
@@ -303,7 +303,7 @@ C08_ReadLinearizable ==
             LET rs == evt.rd.readStates[x]
                 S == {y \in DOMAIN gh.reads : gh.reads[y].ctx = rs.ctx}
             IN \A y \in S : /\ rs.index >= gh.reads[y].atIssue
-                            /\ gh.reads[y].node = i
+                            /\ gh.reads[y].node = an
 
 -----------------------------------------------------------------------------
 (* C09  Membership changes                                                   *)
@@ -312,7 +312,7 @@ ConfIdxBeyondApplied(n, st) ==
     {k \in (n.log.applied + 1)..LogLast(n, st) : Retained(n, st, k) /\ IsConfEntry(LogEntry(n, st, k))}
 
 C09_OnePendingConf ==
-    (Acting /\ up[i] /\ Q.role = "L") => Cardinality(ConfIdxBeyondApplied(Q, QS)) <= 1
+    (Acting /\ up[an] /\ Q.role = "L") => Cardinality(ConfIdxBeyondApplied(Q, QS)) <= 1
 
 C09_ProposalFilter ==
     (SameInc /\ evt.ev = "ProposeConf" /\ evt.rk = "ok" /\ P.role = "L"
@@ -325,10 +325,10 @@ C09_ProposalFilter ==
 
 (* equal applied index => equal configuration (also after restart / snapshot) *)
 C09_ConfFunctionOfLog ==
-    /\ (Acting /\ up[i] /\ evt.ev \in {"Apply", "Advance", "Restart"}) =>
-           LET x == Lookup(gh.confAt, app[i].applied)
+    /\ (Acting /\ up[an] /\ evt.ev \in {"Apply", "Advance", "Restart"}) =>
+           LET x == Lookup(gh.confAt, app[an].applied)
            IN x # 0 => gh.confAt[x].conf = Q.conf
-    /\ (Acting /\ up[i] /\ evt.ev = "Deliver" /\ M.ty = "Snap" /\ Q.log.usnap.i > P.log.usnap.i) =>
+    /\ (Acting /\ up[an] /\ evt.ev = "Deliver" /\ M.ty = "Snap" /\ Q.log.usnap.i > P.log.usnap.i) =>
            LET x == Lookup(gh.confAt, Q.log.usnap.i)
            IN x # 0 => gh.confAt[x].conf = Q.conf
 
@@ -346,7 +346,7 @@ C09_NoCampaignOverUnappliedConf ==
                Retained(P, PS, k) => ~IsConfEntry(LogEntry(P, PS, k))
 
 C09_OnlyVotersCampaign ==
-    (StartedElection /\ evt.ev # "Campaign") => i \in VotersOf(P.conf)
+    (StartedElection /\ evt.ev # "Campaign") => an \in VotersOf(P.conf)
 
 -----------------------------------------------------------------------------
 (* C13  Flow control and well-formed messages                                *)
@@ -377,16 +377,16 @@ RECURSIVE SumData(_)
 SumData(es) == IF es = <<>> THEN 0 ELSE es[1].sz + SumData(Tail(es))
 
 C13_SizeLimit ==
-    (LeaderStep /\ ~P.batchAppend /\ ~Q.batchAppend /\ cfg[i].max_size_per_msg # NoLimit) =>
+    (LeaderStep /\ ~P.batchAppend /\ ~Q.batchAppend /\ cfg[an].max_size_per_msg # NoLimit) =>
         \A x \in DOMAIN evt.gen :
             LET g == evt.gen[x]
-            IN g.ty = "App" => (Len(g.ents) <= 1 \/ SumSize(g.ents) <= cfg[i].max_size_per_msg)
+            IN g.ty = "App" => (Len(g.ents) <= 1 \/ SumSize(g.ents) <= cfg[an].max_size_per_msg)
 
 C13_Window ==
-    (Acting /\ up[i] /\ Q.role = "L") =>
+    (Acting /\ up[an] /\ Q.role = "L") =>
         \A j \in DOMAIN Q.pr :
             /\ Q.pr[j].ins.count <= Q.pr[j].ins.cap
-            /\ (Q.pr[j].state = "R" /\ j # i) =>
+            /\ (Q.pr[j].state = "R" /\ j # an) =>
                    \A x \in GenTo(j, {"App"}) :
                        HasEntries(evt.gen[x]) =>
                            \E y \in DOMAIN RQ(Q.pr[j].ins) : RQ(Q.pr[j].ins)[y] >= Last(evt.gen[x].ents).i
@@ -426,12 +426,12 @@ Outstanding(n, st) ==
 
 C13_UncommittedBudget ==
     (SameInc /\ evt.ev \in {"Propose", "ProposeBatch"} /\ P.role = "L"
-        /\ cfg[i].max_uncommitted_size # NoLimit) =>
+        /\ cfg[an].max_uncommitted_size # NoLimit) =>
         LET added == LogLast(Q, QS) - LogLast(P, PS)
             newsz == Outstanding(Q, QS) - Outstanding(P, PS)
         IN /\ (evt.rk = "ok" /\ added > 0 /\ newsz > 0) =>
-                  (Outstanding(P, PS) = 0 \/ Outstanding(Q, QS) <= cfg[i].max_uncommitted_size)
-           /\ (evt.ev = "Propose" /\ evt.a.p = "" /\ P.lte = 0 /\ i \in DOMAIN P.pr) => evt.rk = "ok"
+                  (Outstanding(P, PS) = 0 \/ Outstanding(Q, QS) <= cfg[an].max_uncommitted_size)
+           /\ (evt.ev = "Propose" /\ evt.a.p = "" /\ P.lte = 0 /\ an \in DOMAIN P.pr) => evt.rk = "ok"
 
 -----------------------------------------------------------------------------
 (* C15  Snapshot install and compaction                                      *)
@@ -440,7 +440,7 @@ Installed == SameInc /\ IsDeliver("Snap") /\ Q.log.usnap.i > 0 /\ Q.log.usnap # 
 
 C15_InstallOnlyIf ==
     Installed => /\ M.snap.i >= P.log.committed
-                 /\ i \in MembersOf(M.snap.conf)
+                 /\ an \in MembersOf(M.snap.conf)
 
 C15_AfterInstall ==
     Installed => /\ Q.log.usnap.i = M.snap.i /\ Q.log.usnap.t = M.snap.t
@@ -481,8 +481,8 @@ C15_SnapshotState ==
     (IsRdEvent /\ evt.ev = "Ready" /\ evt.rd.snap.i > 0) =>
         LET x == Lookup(gh.smAt, evt.rd.snap.i)
             y == Lookup(gh.confAt, evt.rd.snap.i)
-        IN /\ x # 0 => gh.smAt[x].sm = app[i].sm
-           /\ app[i].applied = evt.rd.snap.i
+        IN /\ x # 0 => gh.smAt[x].sm = app[an].sm
+           /\ app[an].applied = evt.rd.snap.i
 
 -----------------------------------------------------------------------------
 (* C16  PreVote + CheckQuorum                                                *)
@@ -501,7 +501,7 @@ C16_NoSelfTermBump ==
            /\ QuorumOf(Grants(P) \cup {M.from}, P.conf)
         \/ IsDeliver("TimeoutNow")
         \/ /\ evt.ev \in {"Tick", "Campaign"} /\ Q.term = P.term + 1
-           /\ QuorumOf({i}, P.conf)
+           /\ QuorumOf({an}, P.conf)
 
 -----------------------------------------------------------------------------
 (* C17  Leadership transfer                                                  *)
@@ -521,10 +521,10 @@ C17_NoProposalsDuringTransfer ==
 
 C17_AbortOnTimeout ==
     (SameInc /\ evt.ev = "Tick" /\ P.role = "L" /\ Q.role = "L" /\ P.lte # 0
-        /\ P.ee + 1 >= cfg[i].election_tick) => Q.lte = 0
+        /\ P.ee + 1 >= cfg[an].election_tick) => Q.lte = 0
 
 C17_TargetIsVoter ==
-    (Acting /\ up[i] /\ Q.role = "L" /\ Q.lte # 0) => Q.lte \in VotersOf(Q.conf)
+    (Acting /\ up[an] /\ Q.role = "L" /\ Q.lte # 0) => Q.lte \in VotersOf(Q.conf)
 
 TransferTarget == IF evt.ev = "Transfer" THEN evt.a.to ELSE M.from
 IsTransferReq == evt.ev = "Transfer" \/ IsDeliver("Transfer")
@@ -535,7 +535,7 @@ C17_IgnoreLearnerUnknown ==
         (Q.lte = P.lte /\ evt.gen = <<>> /\ Q.ee = P.ee)
 
 C17_SelfOnlyCancels ==
-    (SameInc /\ IsTransferReq /\ P.role = "L" /\ TransferTarget = i /\ i \in DOMAIN P.pr) =>
+    (SameInc /\ IsTransferReq /\ P.role = "L" /\ TransferTarget = an /\ an \in DOMAIN P.pr) =>
         (Q.lte = 0 /\ evt.gen = <<>>)
 
 -----------------------------------------------------------------------------
@@ -544,7 +544,7 @@ C17_SelfOnlyCancels ==
 C20_NoPanic == Acting => evt.rk # "panic"
 
 C20_BogusRejected ==
-    (Acting /\ evt.ev = "Bogus") => (evt.rk = "err" /\ (pre.up /\ up[i]) => Q = P)
+    (Acting /\ evt.ev = "Bogus") => (evt.rk = "err" /\ (pre.up /\ up[an]) => Q = P)
 
 -----------------------------------------------------------------------------
 (* C10 / C17 completion: checked at the end of a stabilisation suffix        *)
